@@ -4,21 +4,25 @@ import Holpy.C08.Term
 import Holpy.C08.Recovery
 /-
 C08 — property theorems about the model of `syntax/infertype.py: type_infer` (Model.lean, which
-includes the proposed fixes C08-1 and C08-2).  Vocabulary: Spec.lean (`Respects`, `FullyTyped`,
-`AnnotNoInternal`, `Ctx.NoInternal`), Proofs.lean (`Solves`, `Inv`), Reach.lean (`RInv`).
+includes the fixes C08-1 … C08-4).  Vocabulary: Spec.lean (`Respects`, `FullyTyped`),
+Proofs.lean (`Solves`, `Inv`), Reach.lean (`RInv`).
 -/
 namespace Holpy.C08
 
-/-- `infer_sound`: if `type_infer(t)` returns `t'` (for a skeleton and a context whose given types do
-not use the reserved names `_tN`) then `t'` passes `checked_get_type`, has the shape of `t`, keeps
-every annotation of `t`, gives every unannotated variable its declared type if declared and otherwise
-one type per name, instantiates every unannotated constant at an instance of its signature type, has
-every type filled in and contains no internal type variable. -/
-theorem infer_sound (ctx : Ctx) (fuel : Nat) (t t' : Skel) (h : typeInfer ctx fuel true t = .ok t')
-    (hctx : ctx.NoInternal) (hann : t.AnnotNoInternal) :
+/-- `infer_sound` (no hypothesis on the skeleton or the context: with fix C08-3 a given type that uses a
+reserved name `?'_t…` is rejected with `type_infer`'s own error): if `type_infer(t)` returns `t'` then
+`t'` passes `checked_get_type`, has the shape of `t`, keeps every annotation of `t`, gives every
+occurrence of a variable whose type was missing its declared type if declared and otherwise one type
+per name, instantiates every unannotated constant at an instance of its signature type (or of the type
+`ctxt.defs` gives for the constant being defined), has every type filled in and contains no internal
+type variable.
+Scope of "one type per variable": the occurrences without annotation.  An annotated occurrence
+`(x::T)` keeps `T`; kernel variables are identified by name *and* type, so `(x::nat) = 0 ∧ x` is
+inferred with `x::nat` and `x::bool` (see `Respects` in Spec.lean and the example below). -/
+theorem infer_sound (ctx : Ctx) (fuel : Nat) (t t' : Skel) (h : typeInfer ctx fuel true t = .ok t') :
     (∃ T, checkedGetType t' [] = some T) ∧ t'.erase = t.erase ∧
     (∃ vt svt, Respects ctx vt svt t t') ∧ t'.FullyTyped := by
-  obtain ⟨h1, ⟨vt, svt, h2⟩, h3⟩ := typeInfer_sound h hctx hann
+  obtain ⟨h1, ⟨vt, svt, h2⟩, h3⟩ := typeInfer_sound h
   exact ⟨h1, h2.erase_eq, ⟨vt, svt, h2⟩, h3⟩
 
 namespace Ex
@@ -27,7 +31,7 @@ def nat : Ty := .con "nat" []
 def ctx : Ctx :=
   ⟨[("a", nat)], [],
    [("equals", tfun (.tvar "a") (tfun (.tvar "a") bool)), ("zero", .tvar "a"),
-    ("all", tfun (tfun (.tvar "a") bool) bool), ("conj", tfun bool (tfun bool bool))]⟩
+    ("all", tfun (tfun (.tvar "a") bool) bool), ("conj", tfun bool (tfun bool bool))], []⟩
 /-- `(∀x. f x = 0) ∧ f a = (0::nat)` with `a :: nat` declared, `f` not declared -/
 def skel : Skel :=
   .comb (.comb (.const "conj" none)
@@ -51,15 +55,32 @@ example : typeInfer Ex.ctx 20 true Ex.skel = .ok Ex.result := ok_of_toOption (by
 example : (∃ T, checkedGetType Ex.result [] = some T) ∧ Ex.result.erase = Ex.skel.erase ∧
     (∃ vt svt, Respects Ex.ctx vt svt Ex.skel Ex.result) ∧ Ex.result.FullyTyped :=
   infer_sound Ex.ctx 20 Ex.skel Ex.result (ok_of_toOption (by decide +kernel))
-    (by
-      constructor
-      · intro n T h
-        simp only [Ex.ctx, List.lookup_cons, List.lookup_nil] at h
-        split at h
-        · cases h; rfl
-        · cases h
-      · intro n T h; simp [Ex.ctx] at h)
-    (by simp [Ex.skel, Skel.AnnotNoInternal, Ty.noInternal, Ex.nat, Ty.internals, Ty.internalsL])
+
+/-- the scope of "one type per variable": `(x::nat) = 0 ∧ x` is accepted with `x` at `nat` and at `bool` -/
+example : (typeInfer Ex.ctx 20 true
+    (.comb (.comb (.const "conj" none) (.comb (.comb (.const "equals" none) (.var "x" (some Ex.nat))) (.const "zero" none)))
+      (.var "x" none))).toOption =
+    some (.comb (.comb (.const "conj" (some (tfun Ex.bool (tfun Ex.bool Ex.bool))))
+      (.comb (.comb (.const "equals" (some (Ex.eqT Ex.nat))) (.var "x" (some Ex.nat))) (.const "zero" (some Ex.nat))))
+      (.var "x" (some Ex.bool))) := by decide +kernel
+
+/-- reserved names are rejected with an own error, whatever follows `_t` (fix C08-3) -/
+example : (typeInfer Ex.ctx 20 true (.comb (.comb (.const "equals" none) (.var "x" (some (.stvar (.user "_tx"))))) (.var "y" none))
+    matches .error .reserved) ∧
+    (typeInfer Ex.ctx 20 true (.comb (.comb (.const "equals" none) (.var "x" (some (.stvar (.internal 7))))) (.var "y" none))
+    matches .error .reserved) ∧
+    (typeInfer ⟨[("x", .stvar (.internal 0))], [], Ex.ctx.sig, []⟩ 20 true
+      (.comb (.comb (.const "equals" none) (.var "x" none)) (.var "y" none)) matches .error .reserved) := by
+  decide +kernel
+
+/-- parsing a definition (`ctxt.defs = {f: nat => nat}`): `f x = f (f x)` — the head gets the declared type,
+the recursive occurrences (not in the signature) an instance of it -/
+example : (typeInfer ⟨[], [], Ex.ctx.sig, [("f", tfun Ex.nat Ex.nat)]⟩ 20 true
+    (.comb (.comb (.const "equals" none) (.comb (.const "f" none) (.var "x" none)))
+      (.comb (.const "f" none) (.comb (.const "f" none) (.var "x" none))))).toOption =
+    some (.comb (.comb (.const "equals" (some (Ex.eqT Ex.nat))) (.comb (.const "f" (some (tfun Ex.nat Ex.nat))) (.var "x" (some Ex.nat))))
+      (.comb (.const "f" (some (tfun Ex.nat Ex.nat))) (.comb (.const "f" (some (tfun Ex.nat Ex.nat))) (.var "x" (some Ex.nat))))) := by
+  decide +kernel
 
 /-- `unify_sound`: a successful `unify(A, B)` keeps the state invariant (`uf` flat, only existing
 variables mentioned), and every solution of the new triangular system `uf` solves the old one and
@@ -118,9 +139,9 @@ theorem final_loop_terminates (st : St) (ri : RInv st) (hb : UfBounded st.uf) :
 /-- `type_infer_loop_terminates`: after a successful traversal the rest of `type_infer` never runs
 out of fuel, i.e. the Python `while has_repl` loop terminates on every state `infer` can produce. -/
 theorem type_infer_loop_terminates (ctx : Ctx) (fuel : Nat) (t t' : Skel) (T : Ty) (st : St) (forbid : Bool)
-    (h : infer ctx fuel t [] St.empty = .ok (t', T, st)) (hctx : ctx.NoInternal) (hann : t.AnnotNoInternal) :
+    (h : infer ctx fuel t [] St.empty = .ok (t', T, st)) :
     ∃ N, ∀ fuel', N ≤ fuel' → finish fuel' forbid t' st ≠ .error .fuel := by
-  have post := infer_spec ctx hctx fuel t [] St.empty t' T st h inv_empty cb_empty (by intro B hB; cases hB) hann
+  have post := infer_spec ctx fuel t [] St.empty t' T st h inv_empty cb_empty (by intro B hB; cases hB)
   obtain ⟨N, hN⟩ := finalLoop_terminates (infer_rinv ctx fuel t [] St.empty t' T st h rinv_empty) post.inv.ufb
   refine ⟨N, fun fuel' hf => ?_⟩
   obtain ⟨τ, hτ⟩ := hN fuel' hf
@@ -129,26 +150,28 @@ theorem type_infer_loop_terminates (ctx : Ctx) (fuel : Nat) (t t' : Skel) (T : T
   · intro hc; cases hc
   · rw [hτ]; intro hc; cases hc
 
-/-- `erasure_recovery_partial`: if `t` is well typed, fully annotated without internal variables, and the
+/-- `erasure_recovery_partial`: if `t` is well typed, fully annotated without reserved type variable names, and the
 context declares its variables, then from the erasure that drops only the variable types (constant and
 binder types kept) `type_infer` returns exactly `t`.  Partial: for the deeper erasure levels
 "recovers `t` or reports under-determined" (principality) is not proved; the harness checks it against
 a reference unifier. -/
-theorem erasure_recovery_partial (ctx : Ctx) (t : Skel) (T : Ty) (hf : t.FullyTyped) (hd : t.Declared ctx)
-    (hc : checkedGetType t [] = some T) :
+theorem erasure_recovery_partial (ctx : Ctx) (t : Skel) (T : Ty) (hf : t.FullyTyped) (hr : t.NoReserved)
+    (hd : t.Declared ctx) (hc : checkedGetType t [] = some T) :
     ∃ N, ∀ fuel, N ≤ fuel → typeInfer ctx fuel true t.eraseVars = .ok t :=
-  typeInfer_recover ctx t T hf hd hc
+  typeInfer_recover ctx t T hf hr hd hc
 
 /-- non-vacuity: the hypotheses hold for the example term with `f` and `a` declared -/
-example : Ex.result.FullyTyped ∧ Ex.result.Declared ⟨[("a", Ex.nat), ("f", tfun Ex.nat Ex.nat)], [], []⟩ ∧
+example : Ex.result.FullyTyped ∧ Ex.result.NoReserved ∧
+    Ex.result.Declared ⟨[("a", Ex.nat), ("f", tfun Ex.nat Ex.nat)], [], [], []⟩ ∧
     checkedGetType Ex.result [] = some Ex.bool := by
-  refine ⟨?_, ?_, by decide +kernel⟩
+  refine ⟨?_, ?_, ?_, by decide +kernel⟩
   · simp [Ex.result, Skel.FullyTyped, Ty.noInternal, Ex.nat, Ex.bool, Ex.eqT, Ty.internals, Ty.internalsL]
+  · simp [Ex.result, Skel.NoReserved, Ex.nat, Ex.bool, Ex.eqT, Ty.hasReserved, Ty.hasReservedL]
   · simp [Ex.result, Skel.Declared, List.lookup, Ex.nat]
 
 namespace Ex
 /-- `a :: 'a` declared as a variable, `?s :: ?'a` declared as a schematic variable -/
-def ctxTS : Ctx := ⟨[("a", .tvar "a")], [("s", .stvar (.user "a"))], Ex.ctx.sig⟩
+def ctxTS : Ctx := ⟨[("a", .tvar "a")], [("s", .stvar (.user "a"))], Ex.ctx.sig, []⟩
 def isErr (e : Err) (r : Except Err Skel) : Bool := match r with | .error e' => e == e' | _ => false
 end Ex
 
